@@ -123,6 +123,13 @@ def run_case(job):
                                                gammas=[lambda y1, y2, y3: np.sinh(y3)], lindblad_operators=[lop])
             jac = np.sqrt(1.0 + np.asarray(pars, dtype=float) ** 2)
             pars = np.arcsinh(np.asarray(pars, dtype=float))
+        elif mode == "numeric-lop":
+            # the same physics with the parameter carried by the Lindblad OPERATOR instead of the rate:
+            # 2 D[sqrt(g / 2) z] = g D[z]
+            if shift != 0 or not dephase:
+                return []
+            system = oqupy.ParameterizedSystem(ham, gammas=[lambda x1, x2, g: 2.0],
+                                               lindblad_operators=[lambda x1, x2, g: np.sqrt(g / 2.0) * np.diag(zdiag)])
         elif mode == "supplied":
             if shift != 0:
                 class PS(oqupy.ParameterizedSystem):
@@ -313,6 +320,8 @@ def run(ctx):
                 vs.append({"mode": "numeric", "target": "linear", "warmup": idx % 8 == 0})
             if not shifted and not case["ctl"] and (idx % (4 if quick else 2) == 2 % (4 if quick else 2)):
                 vs.append({"mode": "numeric-nonaffine", "target": "callable" if idx % 8 == 2 else "linear"})
+            if not shifted and case["dephase"] and (idx % (4 if quick else 2) == 1):
+                vs.append({"mode": "numeric-lop", "target": "linear"})
             if len(case["edims"]) == 2 and idx % 3 == 0:
                 vs.append({"mode": "supplied", "target": "linear", "order": [1, 0], "expect_differs": True})
             for v in vs:
